@@ -82,6 +82,20 @@ def check(ctx):
     for m, items in sorted(batches.items()):
         ctx.count("states", len(items))
         run_items(ctx, "m=%d: ordered measured lists x point-mass outcomes on the full register, all configurations, both fitters" % m, items)
+    # affinity on the full register: every two-outcome mixture with unequal weights -- in particular pairs of
+    # outcomes that agree on the measured qubits (they must be ADDED in the marginal) and pairs that do not
+    items = []
+    for (m, N, conn) in ((2, 3, "all"), (2, 4, "all"), (3, 4, "linear")):
+        lists = measured_lists(m, N)
+        for k, ql in enumerate(lists if not quick else lists[::2]):
+            for b, b2 in itertools.combinations(range(1 << N), 2):
+                if quick and N == 4 and (b * 7 + b2 + k) % 4:
+                    continue
+                items.append(("tomography", m, conn, N, ql, [], ("mix3", b, b2, (b + b2 + 1) % (1 << N), 1, 3, 2), False, None))
+                if (b + b2) % 3 == 0:
+                    items.append(("stabilizer", m, conn, N, ql, [], ("mix", b, b2, 0.25, 0.75), False, group_for(m, b)))
+    ctx.count("states", len(items))
+    run_items(ctx, "affinity: two- and three-outcome mixtures with unequal weights on the full register (colliding and non-colliding marginals)", items)
     if not quick:
         items = []
         for ql in ([7, 0, 3, 5, 1, 6], [2, 3, 4, 5, 6, 7], [7, 6, 5, 4, 3, 2]):
